@@ -850,6 +850,12 @@ func (n *AlertNode) restoreEvent(id string) (alert.Level, time.Time) {
 			if err := n.et.tm.AlertService.UpdateEvent(n.anonTopic, topicState); err != nil {
 				n.diag.Error("failed to update topic event state", err, keyvalue.KV("topic", n.topic), keyvalue.KV("event", id))
 			}
+		} else if anonFound && n.hasTopic() {
+			// Only the anonymous topic has the event (both are written one after the other):
+			// bring the topic up to date with the state the node resumes from.
+			if err := n.et.tm.AlertService.UpdateEvent(n.topic, anonTopicState); err != nil {
+				n.diag.Error("failed to update topic event state", err, keyvalue.KV("topic", n.topic), keyvalue.KV("event", id))
+			}
 		} // else nothing was found, nothing to do
 	}
 	if anonFound {
